@@ -62,7 +62,7 @@ def run_corr(ctx, ncases, tag, workers=8):
     return summ, base
 
 
-def check(ctx, pid, theorems, props_module, nquick=48, nthorough=1600, extra_modules=(), pre=None):
+def check(ctx, pid, theorems, props_module, nquick=144, nthorough=2400, extra_modules=(), pre=None):
     ok, out = common.ensure_build("hooks", targets=("sympler",))
     ctx.oblige("hooked build of /repo", ok, out[-300:])
     if pre:
@@ -84,7 +84,17 @@ def check(ctx, pid, theorems, props_module, nquick=48, nthorough=1600, extra_mod
                {"C04": "force buffers (both) of every particle", "C05": "positions, velocities, integrated quantities, force buffers, force index",
                 "C07": "every pair-summed symbol (value, persistence flag)", "C10": "every field of every frozen particle"}[pid],
                not mine, str([dict(detail=d.get("detail"), kind=d.get("kind"), step=d.get("step")) for d in mine[:2]])[:500])
-    ctx.oblige("oracle on the real runs (%s; applied %d times)" % (", ".join(ORACLES[pid]), applied), not viol,
+    if pid in ("C04", "C10") and ok and os.path.exists(common.symdrv()):
+        # composition with the pair search: acts-on flags of every listed pair = free flags of its partners (hypothesis of C04_free_only / C10_frozen_fixed)
+        import gridcheck
+        gs, gkeep = gridcheck.run_corr(ctx, 40 if not ctx.thorough else 600, pid.lower() + "g")
+        gv = [v for v in (gs or {}).get("oracle_violations", []) if v["what"].startswith("acts-on")] if gs else []
+        ctx.oblige("oracle on real linked-cell runs: acts-on flags of every listed pair = (first free, second free) in %d states" % (gs or {}).get("states_compared", 0),
+                   gs is not None and not gv, str(gv[:2])[:400])
+        for v in gv[:1]:
+            viol.append(dict(oracle="acts-on flags", detail="step %s: %s" % (v["step"], v["what"]), scenario=gridcheck.scenario_of(gkeep, v["case"]), case=v["case"]))
+        shutil.rmtree(gkeep, ignore_errors=True)
+    ctx.oblige("oracle on the real runs (%s; applied %d times)" % (", ".join(ORACLES[pid]), applied), not [v for v in viol if v["oracle"] != "acts-on flags"],
                str([dict(oracle=v["oracle"], detail=v["detail"]) for v in viol[:2]])[:500])
     ctx.coverage.update(dict(
         evaluations=summ["cases"], distinct_nontrivial=summ["cases"], traces_validated_against_impl=summ["cases"],
